@@ -197,7 +197,7 @@ func run(start time.Time) (code int) {
 	var allObls []*Obligation
 	var setupErrs []string
 	for _, fc := range targets {
-		fn := P.FuncByKey[fc.Key]
+		fn := P.FuncByKey[strings.TrimSuffix(fc.Key, implSuffix)]
 		if fn == nil || fn.Blocks == nil {
 			setupErrs = append(setupErrs, fmt.Sprintf("contract at %s names %s, which does not exist (or has no body) in the current tree", P.posStr(fc.Pos), fc.Key))
 			continue
@@ -301,11 +301,13 @@ func (x *Exec) verifyFunction(fn *ssa.Function, fc *FuncContract, prop string, r
 	// each function is verified from its own assumptions only
 	x.assumps = nil
 	x.recDone = map[*Term]bool{}
+	x.ptrTagDone = nil
 	x.recDepth = map[string]int{}
 	x.absDivs = nil
 	fr := x.newFrame(fn, nil)
 	fr.top = true
 	fr.props = fc.Props
+	fr.contract = fc // (an "impl" view is not the contract callers see)
 	if fr.li != nil {
 		for _, l := range fr.li.Loops {
 			if *flagVerbose {
@@ -422,7 +424,9 @@ func (x *Exec) verifyFunction(fn *ssa.Function, fc *FuncContract, prop string, r
 		}
 	}
 	_ = extra
-	if fc.HasAssigns {
+	if fc.HasAssigns && fc.AssumedFrame != "" {
+		x.note("assumed frame (not checked against the body): " + shortKey(fc.Key) + " — " + fc.AssumedFrame)
+	} else if fc.HasAssigns {
 		var ts []target
 		for _, a := range fc.Assigns {
 			ts = append(ts, fr.evalTargets(a, fr.entry, nil, nil)...)
@@ -440,7 +444,7 @@ func (x *Exec) vacuityCheck(fc *FuncContract, nA0, nAEntry int, og *Term, work s
 	asserts = append(asserts, x.assumps...)
 	asserts = append(asserts, og)
 	script := c.Script(asserts, ScriptOpts{})
-	t := 5
+	t := 20
 	r := raceSolvers(script, work, "vacuity_"+shortKey(fc.Key), t)
 	switch r.status {
 	case "sat":
@@ -448,5 +452,21 @@ func (x *Exec) vacuityCheck(fc *FuncContract, nA0, nAEntry int, og *Term, work s
 	case "unsat":
 		return "VACUOUS: assumptions contradictory or no return reachable"
 	}
-	return "undetermined (solver gave no answer in 5 s)"
+	// second attempt without the quantified assumptions: weaker evidence (the ground part is consistent)
+	var qf []*Term
+	for _, a := range x.assumps {
+		if !a.hasQ {
+			qf = append(qf, a)
+		}
+	}
+	if !og.hasQ && len(qf) < len(x.assumps) {
+		r2 := raceSolvers(c.Script(append(qf, og), ScriptOpts{}), work, "vacuity_noq_"+shortKey(fc.Key), t)
+		switch r2.status {
+		case "sat":
+			return "quantifier-free part of the assumptions satisfiable and a return reachable (sat, " + r2.solver + "); with the quantified assumptions: undetermined in 20 s"
+		case "unsat":
+			return "VACUOUS: assumptions contradictory or no return reachable"
+		}
+	}
+	return "undetermined (solver gave no answer in 20 s)"
 }
